@@ -53,15 +53,17 @@ PSig(ppubs, h1) == B!Add2(B!Mul2(h1, B!G2), ppubs)         \* P = [h1]P2 + Ppub-
 (* ------------------------------------------------------------ random draws *)
 (* The library reads 32 bytes at a time and keeps the first value it can use.   *)
 (* script: a sequence of byte strings, one per read of more than one byte.       *)
-(* FirstAt(script, ok(_)) = index of the first usable chunk (0 if none)          *)
-RECURSIVE FirstFrom(_, _, _)
-FirstFrom(script, i, Ok(_)) == IF i > Len(script) THEN 0 ELSE IF Ok(script[i]) THEN i ELSE FirstFrom(script, i + 1, Ok)
+(* NonceAt / MasterAt = index of the first usable chunk (0 if none)              *)
 NonceOk(c) == Len(c) = 32 /\ ValidNonce(BN!Norm(c))
-NonceAt(script) == FirstFrom(script, 1, NonceOk)
-(* Generate*MasterKey flips bit 0x42 of the second byte of what it read *)
+RECURSIVE NonceFrom(_, _)
+NonceFrom(script, i) == IF i > Len(script) THEN 0 ELSE IF NonceOk(script[i]) THEN i ELSE NonceFrom(script, i + 1)
+NonceAt(script) == NonceFrom(script, 1)
+(* Generate*MasterKey flips the bits 0x42 of the second byte of what it read *)
 MasterOf(c) == BN!Norm([c EXCEPT ![2] = By!BXor(<<@>>, <<66>>)[1]])
 MasterOk(c) == Len(c) = 32 /\ ValidMaster(MasterOf(c))
-MasterAt(script) == FirstFrom(script, 1, MasterOk)
+RECURSIVE MasterFrom(_, _)
+MasterFrom(script, i) == IF i > Len(script) THEN 0 ELSE IF MasterOk(script[i]) THEN i ELSE MasterFrom(script, i + 1)
+MasterAt(script) == MasterFrom(script, 1)
 
 (* ------------------------------------------------------------ point and key encodings *)
 U1(Q) == <<4>> \o B!G1Bytes(Q)                           \* 65 bytes
